@@ -1,4 +1,6 @@
 import CoercionModel.Model.Api
+import CoercionModel.Proofs.ApiFine
+import CoercionModel.Generated.F9
 set_option linter.unusedSimpArgs false
 /-
   C12 — A plan executes at most once; repeated or racing Start is rejected safely.
@@ -101,6 +103,30 @@ theorem stale_stable (s s' : S) (l : Label) (r : Ret) (hs : step s l = some (s',
 /-- read-only calls change nothing -/
 theorem reads_change_nothing (s : S) : step s .wait = some (s, .none) ∧ step s .status = some (s, .none) ∧ step s .plan = some (s, .none) := by
   simp [step]
+
+/-! ### Start at the granularity of its shared accesses (Model/ApiFine)
+
+  `Model/Api` takes `Start` as one step. That hid defect D28: between the storage read and the waiter
+  lookup of one Start the engine can run a short plan to its end. `ApiFine` splits Start (lock, waiter
+  lookup, storage read, decide) and the engine (Running write, terminal write, waiter release). -/
+
+/-- the order of the accesses in `Start`, the synchronous registration of the waiter and its deferred
+    release, read off execute.go on every run, are the ones the model has -/
+theorem facts_start_order :
+    Generated.F9.startOrder = ApiFine.startOrder ∧ Generated.F9.registerBeforeSpawn = true ∧ Generated.F9.releaseDeferred = true := by
+  decide
+
+/-- with the waiter looked up BEFORE storage is read (the code, a8f2a16) a plan is executed at most once
+    under every interleaving of the sub-steps of any number of Starts with the engine's steps -/
+theorem at_most_once_fine (t : List ApiFine.Label) (s : ApiFine.S) (hr : ApiFine.run .waiterFirst {} t = some s) : s.execs ≤ 1 :=
+  (ApiFine.inv_run t {} s ApiFine.inv_init hr).le1
+
+/-- with storage read first (the order the first repair had) the history of D28 executes the plan twice -/
+theorem read_first_unsafe : ∃ t s, ApiFine.run .readFirst {} t = some s ∧ s.execs = 2 := by
+  have h := ApiFine.d28_readFirst
+  cases hr : ApiFine.run .readFirst {} ApiFine.d28 with
+  | none => simp [hr] at h
+  | some s => exact ⟨ApiFine.d28, s, hr, by simpa [hr] using h⟩
 
 /-! ### non-vacuity: two racing Starts, the engine, a third Start after the end -/
 example : (run {} [.start, .start, .engineRunning, .start, .engineFinish true, .start]).map (fun s => (s.execs, s.stored, s.waiter)) =
